@@ -423,6 +423,12 @@ package p9
 //@   panic_ensures[C15] @locks-released-on-panic nolocks()
 //@   ensures[C04] @table-invariant Ifid(cs)
 
+// C06 "a request blocked inside the backend delays only requests that the
+// File concurrency contract orders after it": outside rename and remove (whose
+// class is global) no backend call is made while the global lock is write-held.
+//@ group localLocks
+//@   at File.* requires[C06] @backend-call-not-under-global-lock held(cs.server.renameMu) != -1
+
 // helpers called by handlers get a precise frame instead of "*": reference
 // counts and path-tree registrations (DecRef), the backend call log
 //@ group helperFrame
@@ -444,7 +450,7 @@ package p9
 //@   panic_ensures[C04,C15] @fid-table-unchanged-on-panic sameFids(cs)
 
 //@ func (*tmkdir).do
-//@   use handlerBase dirOpRows
+//@   use handlerBase dirOpRows localLocks
 //@   ensures[C09,C04] @unsafe-name-rejected !safe(old(t.Name)) ==> errIs(result1, linux.EINVAL) && nocalls()
 //@   ensures[C04] @unbound-fid safe(old(t.Name)) && !old(has(cs.fids, t.Directory)) ==> errIs(result1, linux.EBADF) && nocalls()
 //@   ensures[C04] @opened-dir-refused old(has(cs.fids, t.Directory)) && old(cs.fids[t.Directory].opened) ==> result1 != nil && nocalls()
@@ -456,14 +462,14 @@ package p9
 //@   ensures[C03] @returns-backend-qid result1 == nil ==> result0 != nil && result0.QID == ghost("$ret.QID", QID)
 
 //@ func (*tmkdir).handle
-//@   use handlerBase dirOpRows
+//@   use handlerBase dirOpRows localLocks
 //@   ensures[C06] @reply-type typeis(result, *rmkdir) || typeis(result, *rlerror)
 //@   ensures[C09] @unsafe-name-einval !safe(old(t.Name)) ==> isErr(result, linux.EINVAL) && nocalls()
 //@   ensures[C04] @unbound-fid-ebadf safe(old(t.Name)) && !old(has(cs.fids, t.Directory)) ==> isErr(result, linux.EBADF) && nocalls()
 //@   ensures[C15] @backend-error-reported ncalls() > old(ncalls()) && ghost("$lasterr", error) != nil ==> isErr(result, errno(ghost("$lasterr", error)))
 
 //@ func (*tsymlink).do
-//@   use handlerBase dirOpRows
+//@   use handlerBase dirOpRows localLocks
 //@   ensures[C09,C04] @unsafe-name-rejected !safe(old(t.Name)) ==> errIs(result1, linux.EINVAL) && nocalls()
 //@   ensures[C04] @unbound-fid safe(old(t.Name)) && !old(has(cs.fids, t.Directory)) ==> errIs(result1, linux.EBADF) && nocalls()
 //@   ensures[C04] @opened-dir-refused old(has(cs.fids, t.Directory)) && old(cs.fids[t.Directory].opened) ==> result1 != nil && nocalls()
@@ -474,14 +480,14 @@ package p9
 //@   ensures[C03,C15] @error-or-result ncalls() > old(ncalls()) ==> result1 == ghost("$lasterr", error)
 //@   ensures[C03] @returns-backend-qid result1 == nil ==> result0 != nil && result0.QID == ghost("$ret.QID", QID)
 //@ func (*tsymlink).handle
-//@   use handlerBase dirOpRows
+//@   use handlerBase dirOpRows localLocks
 //@   ensures[C06] @reply-type typeis(result, *rsymlink) || typeis(result, *rlerror)
 //@   ensures[C09] @unsafe-name-einval !safe(old(t.Name)) ==> isErr(result, linux.EINVAL) && nocalls()
 //@   ensures[C04] @unbound-fid-ebadf safe(old(t.Name)) && !old(has(cs.fids, t.Directory)) ==> isErr(result, linux.EBADF) && nocalls()
 //@   ensures[C15] @backend-error-reported ncalls() > old(ncalls()) && ghost("$lasterr", error) != nil ==> isErr(result, errno(ghost("$lasterr", error)))
 
 //@ func (*tmknod).do
-//@   use handlerBase dirOpRows
+//@   use handlerBase dirOpRows localLocks
 //@   ensures[C09,C04] @unsafe-name-rejected !safe(old(t.Name)) ==> errIs(result1, linux.EINVAL) && nocalls()
 //@   ensures[C04] @unbound-fid safe(old(t.Name)) && !old(has(cs.fids, t.Directory)) ==> errIs(result1, linux.EBADF) && nocalls()
 //@   ensures[C04] @opened-dir-refused old(has(cs.fids, t.Directory)) && old(cs.fids[t.Directory].opened) ==> result1 != nil && nocalls()
@@ -492,14 +498,14 @@ package p9
 //@   ensures[C03,C15] @error-or-result ncalls() > old(ncalls()) ==> result1 == ghost("$lasterr", error)
 //@   ensures[C03] @returns-backend-qid result1 == nil ==> result0 != nil && result0.QID == ghost("$ret.QID", QID)
 //@ func (*tmknod).handle
-//@   use handlerBase dirOpRows
+//@   use handlerBase dirOpRows localLocks
 //@   ensures[C06] @reply-type typeis(result, *rmknod) || typeis(result, *rlerror)
 //@   ensures[C09] @unsafe-name-einval !safe(old(t.Name)) ==> isErr(result, linux.EINVAL) && nocalls()
 //@   ensures[C04] @unbound-fid-ebadf safe(old(t.Name)) && !old(has(cs.fids, t.Directory)) ==> isErr(result, linux.EBADF) && nocalls()
 //@   ensures[C15] @backend-error-reported ncalls() > old(ncalls()) && ghost("$lasterr", error) != nil ==> isErr(result, errno(ghost("$lasterr", error)))
 
 //@ func (*tlink).handle
-//@   use handlerBase dirOpRows
+//@   use handlerBase dirOpRows localLocks
 //@   ensures[C06] @reply-type typeis(result, *rlink) || typeis(result, *rlerror)
 //@   ensures[C09] @unsafe-name-einval !safe(old(t.Name)) ==> isErr(result, linux.EINVAL) && nocalls()
 //@   ensures[C04] @unbound-dir-ebadf safe(old(t.Name)) && !old(has(cs.fids, t.Directory)) ==> isErr(result, linux.EBADF) && nocalls()
@@ -511,7 +517,7 @@ package p9
 //@   ensures[C03] @success-reply ncalls() > old(ncalls()) && ghost("$lasterr", error) == nil ==> typeis(result, *rlink)
 
 //@ func (*tgetattr).handle
-//@   use handlerBase dirOpRows
+//@   use handlerBase dirOpRows localLocks
 //@   ensures[C06] @reply-type typeis(result, *rgetattr) || typeis(result, *rlerror)
 //@   ensures[C04] @unbound-fid-ebadf !old(has(cs.fids, t.fid)) ==> isErr(result, linux.EBADF) && nocalls()
 //@   at File.GetAttr requires[C03] @forwards recv == old(cs.fids[t.fid]).file && arg0 == old(t.AttrMask)
@@ -519,7 +525,7 @@ package p9
 //@   ensures[C08] @getattr-not-fenced old(has(cs.fids, t.fid)) ==> ncalls("File.GetAttr") == old(ncalls("File.GetAttr")) + 1
 
 //@ func (*tsetattr).handle
-//@   use handlerBase dirOpRows
+//@   use handlerBase dirOpRows localLocks
 //@   ensures[C06] @reply-type typeis(result, *rsetattr) || typeis(result, *rlerror)
 //@   ensures[C04] @unbound-fid-ebadf !old(has(cs.fids, t.fid)) ==> isErr(result, linux.EBADF) && nocalls()
 //@   ensures[C08] @fenced-refused old(has(cs.fids, t.fid)) && old(fenced(cs.fids[t.fid])) ==> isErr(result, linux.EINVAL) && nocalls()
@@ -527,7 +533,7 @@ package p9
 //@   ensures[C15] @backend-error-reported ncalls() > old(ncalls()) && ghost("$lasterr", error) != nil ==> isErr(result, errno(ghost("$lasterr", error)))
 
 //@ func (*treadlink).handle
-//@   use handlerBase dirOpRows
+//@   use handlerBase dirOpRows localLocks
 //@   ensures[C06] @reply-type typeis(result, *rreadlink) || typeis(result, *rlerror)
 //@   ensures[C04] @unbound-fid-ebadf !old(has(cs.fids, t.fid)) ==> isErr(result, linux.EBADF) && nocalls()
 //@   ensures[C08] @fenced-refused old(has(cs.fids, t.fid)) && old(fenced(cs.fids[t.fid])) ==> isErr(result, linux.EINVAL) && nocalls()
@@ -536,21 +542,21 @@ package p9
 //@   ensures[C15] @backend-error-reported ncalls() > old(ncalls()) && ghost("$lasterr", error) != nil ==> isErr(result, errno(ghost("$lasterr", error)))
 
 //@ func (*tstatfs).handle
-//@   use handlerBase dirOpRows
+//@   use handlerBase dirOpRows localLocks
 //@   ensures[C06] @reply-type typeis(result, *rstatfs) || typeis(result, *rlerror)
 //@   ensures[C04] @unbound-fid-ebadf !old(has(cs.fids, t.fid)) ==> isErr(result, linux.EBADF) && nocalls()
 //@   at File.StatFS requires[C03] @forwards recv == old(cs.fids[t.fid]).file
 //@   ensures[C15] @backend-error-reported ncalls() > old(ncalls()) && ghost("$lasterr", error) != nil ==> isErr(result, errno(ghost("$lasterr", error)))
 
 //@ func (*tlock).handle
-//@   use handlerBase dirOpRows
+//@   use handlerBase dirOpRows localLocks
 //@   ensures[C06] @reply-type typeis(result, *rlock) || typeis(result, *rlerror)
 //@   ensures[C04] @unbound-fid-ebadf !old(has(cs.fids, t.fid)) ==> isErr(result, linux.EBADF) && nocalls()
 //@   at File.Lock requires[C03] @forwards recv == old(cs.fids[t.fid]).file && arg0 == int(old(t.PID)) && arg1 == old(t.Type) && arg2 == old(t.Flags) && arg3 == old(t.Start) && arg4 == old(t.Length) && arg5 == old(t.Client)
 //@   ensures[C15] @backend-error-reported ncalls() > old(ncalls()) && ghost("$lasterr", error) != nil ==> isErr(result, errno(ghost("$lasterr", error)))
 
 //@ func (*tfsync).handle
-//@   use handlerBase dirOpRows
+//@   use handlerBase dirOpRows localLocks
 //@   ensures[C06] @reply-type typeis(result, *rfsync) || typeis(result, *rlerror)
 //@   ensures[C04] @unbound-fid-ebadf !old(has(cs.fids, t.fid)) ==> isErr(result, linux.EBADF) && nocalls()
 //@   ensures[C04] @unopened-einval old(has(cs.fids, t.fid)) && !old(cs.fids[t.fid].opened) ==> isErr(result, linux.EINVAL) && nocalls()
@@ -558,7 +564,7 @@ package p9
 //@   ensures[C15] @backend-error-reported ncalls() > old(ncalls()) && ghost("$lasterr", error) != nil ==> isErr(result, errno(ghost("$lasterr", error)))
 
 //@ func (*tauth).handle
-//@   use handlerBase dirOpRows
+//@   use handlerBase dirOpRows localLocks
 //@   ensures[C04,C06] @enosys isErr(result, linux.ENOSYS) && nocalls()
 
 // ---- path tree helpers used by the handlers ------------------------------------
@@ -611,7 +617,7 @@ package p9
 //@ guard fidRef.openFlags[C07,C16] read readLocked(r) write writeLocked(r)
 
 //@ func (*tlopen).handle
-//@   use handlerBase dirOpRows
+//@   use handlerBase dirOpRows localLocks
 //@   ensures[C06] @reply-type typeis(result, *rlopen) || typeis(result, *rlerror)
 //@   ensures[C04] @unbound-fid-ebadf !old(has(cs.fids, t.fid)) ==> isErr(result, linux.EBADF) && nocalls()
 //@   ensures[C04] @already-open-einval old(has(cs.fids, t.fid)) && old(cs.fids[t.fid].opened) && !old(fenced(cs.fids[t.fid])) ==> isErr(result, linux.EINVAL) && nocalls()
@@ -624,7 +630,7 @@ package p9
 //@   ensures[C15] @backend-error-reported ncalls() > old(ncalls()) && ghost("$lasterr", error) != nil ==> isErr(result, errno(ghost("$lasterr", error)))
 
 //@ func (*tlcreate).do
-//@   use handlerBase
+//@   use handlerBase localLocks
 //@   ensures[C09,C04] @unsafe-name-rejected !safe(old(t.Name)) ==> errIs(result1, linux.EINVAL) && nocalls() && sameFids(cs)
 //@   ensures[C04] @unbound-fid safe(old(t.Name)) && !old(has(cs.fids, t.fid)) ==> errIs(result1, linux.EBADF) && nocalls() && sameFids(cs)
 //@   ensures[C04] @opened-dir-refused old(has(cs.fids, t.fid)) && old(cs.fids[t.fid].opened) ==> result1 != nil && nocalls()
@@ -637,7 +643,7 @@ package p9
 //@   ensures[C03,C15] @error-or-result ncalls() > old(ncalls()) ==> result1 == ghost("$lasterr", error)
 //@   ensures[C05] @new-ref-holds-created-file result1 == nil ==> cs.fids[old(t.fid)].file == ghost("$ret.File", File) && cs.fids[old(t.fid)].parent == old(cs.fids[t.fid])
 //@ func (*tlcreate).handle
-//@   use handlerBase
+//@   use handlerBase localLocks
 //@   ensures[C06] @reply-type typeis(result, *rlcreate) || typeis(result, *rlerror)
 //@   ensures[C09] @unsafe-name-einval !safe(old(t.Name)) ==> isErr(result, linux.EINVAL) && nocalls() && sameFids(cs)
 //@   ensures[C04] @unbound-fid-ebadf safe(old(t.Name)) && !old(has(cs.fids, t.fid)) ==> isErr(result, linux.EBADF) && nocalls() && sameFids(cs)
@@ -649,7 +655,7 @@ package p9
 // buffers of exactly the negotiated msize (tversion.handle installs such a
 // pool; Tversion is not pipelined with other requests).
 //@ func (*tread).handle
-//@   use handlerBase dirOpRows
+//@   use handlerBase dirOpRows localLocks
 //@   at (*sync.Pool).Get assume typeis(ret0, *[]byte) && unbox(ret0, *[]byte) != nil && len(*unbox(ret0, *[]byte)) == int(cs.messageSize)
 //@   requires[C13] @msize-admits-a-reply-frame 11 <= cs.messageSize && cs.messageSize <= maximumLength
 //@   ensures[C06] @reply-type typeis(result, *rreadServerPayloader) || typeis(result, *rlerror)
@@ -663,7 +669,7 @@ package p9
 //@   ensures[C15] @backend-error-reported ncalls() > old(ncalls()) && ghost("$lasterr", error) != nil && !isEOF(ghost("$lasterr", error)) ==> isErr(result, errno(ghost("$lasterr", error)))
 
 //@ func (*twrite).handle
-//@   use handlerBase dirOpRows
+//@   use handlerBase dirOpRows localLocks
 //@   ensures[C06] @reply-type typeis(result, *rwrite) || typeis(result, *rlerror)
 //@   ensures[C04] @unbound-fid-ebadf !old(has(cs.fids, t.fid)) ==> isErr(result, linux.EBADF) && nocalls()
 //@   ensures[C04] @unopened-einval old(has(cs.fids, t.fid)) && old(cs.fids[t.fid].pendingXattr.op) == xattrNone && !old(cs.fids[t.fid].opened) ==> isErr(result, linux.EINVAL) && nocalls()
@@ -675,7 +681,7 @@ package p9
 //@   ensures[C15] @backend-error-reported ncalls() > old(ncalls()) && ghost("$lasterr", error) != nil ==> isErr(result, errno(ghost("$lasterr", error)))
 
 //@ func (*treaddir).handle
-//@   use handlerBase dirOpRows
+//@   use handlerBase dirOpRows localLocks
 //@   ensures[C06] @reply-type typeis(result, *rreaddir) || typeis(result, *rlerror)
 //@   ensures[C04] @unbound-fid-ebadf !old(has(cs.fids, t.Directory)) ==> isErr(result, linux.EBADF) && nocalls()
 //@   ensures[C04] @unopened-einval old(has(cs.fids, t.Directory)) && !old(cs.fids[t.Directory].opened) ==> isErr(result, linux.EINVAL) && nocalls()
@@ -688,7 +694,7 @@ package p9
 //@   ensures[C15] @backend-error-reported ncalls() > old(ncalls()) && ghost("$lasterr", error) != nil && !isEOF(ghost("$lasterr", error)) ==> isErr(result, errno(ghost("$lasterr", error)))
 
 //@ func (*txattrcreate).handle
-//@   use handlerBase dirOpRows
+//@   use handlerBase dirOpRows localLocks
 //@   ensures[C06] @reply-type typeis(result, *rxattrcreate) || typeis(result, *rlerror)
 //@   ensures[C04] @unbound-fid-ebadf !old(has(cs.fids, t.fid)) ==> isErr(result, linux.EBADF)
 //@   ensures[C04,C03] @no-backend-call nocalls()
@@ -696,7 +702,7 @@ package p9
 //@   ensures[C04] @arms-write-subprotocol typeis(result, *rxattrcreate) ==> old(cs.fids[t.fid]).pendingXattr.op == xattrCreate && old(cs.fids[t.fid]).pendingXattr.size == old(t.AttrSize) && len(old(cs.fids[t.fid]).pendingXattr.buf) == 0
 
 //@ func (*txattrwalk).handle
-//@   use handlerBase
+//@   use handlerBase localLocks
 //@   ensures[C06] @reply-type typeis(result, *rxattrwalk) || typeis(result, *rlerror)
 //@   ensures[C04] @unbound-fid-ebadf !old(has(cs.fids, t.fid)) ==> isErr(result, linux.EBADF) && nocalls() && sameFids(cs)
 //@   ensures[C04,C15] @binds-only-on-success typeis(result, *rlerror) ==> sameFids(cs)
@@ -718,7 +724,7 @@ package p9
 //@   ensures[C04] @unbound-no-backend !old(has(cs.fids, t.fid)) ==> nocalls()
 
 //@ func (*tclunk).handle
-//@   use handlerBase
+//@   use handlerBase localLocks
 //@   ensures[C06] @reply-type typeis(result, *rclunk) || typeis(result, *rlerror)
 //@   ensures[C04,C15] @always-unbinds !has(cs.fids, old(t.fid))
 //@   ensures[C04] @other-fids-unchanged forall(k, fid, k != old(t.fid) ==> has(cs.fids, k) == old(has(cs.fids, k)) && cs.fids[k] == old(cs.fids[k]))
@@ -739,7 +745,7 @@ package p9
 
 // ---- rename / unlink ---------------------------------------------------------------
 //@ func (*tunlinkat).handle
-//@   use handlerBase dirOpRows
+//@   use handlerBase dirOpRows localLocks
 //@   ensures[C06] @reply-type typeis(result, *runlinkat) || typeis(result, *rlerror)
 //@   ensures[C09] @unsafe-name-einval !safe(old(t.Name)) ==> isErr(result, linux.EINVAL) && nocalls()
 //@   ensures[C04] @unbound-fid-ebadf safe(old(t.Name)) && !old(has(cs.fids, t.Directory)) ==> isErr(result, linux.EBADF) && nocalls()
@@ -832,19 +838,19 @@ package p9
 //@   ensures[C09] @unsafe-component-einval old(has(cs.fids, t.fid)) && !(old(cs.fids[t.fid].opened) && old(t.fid) == old(t.newFID)) && exists(j, 0, len(old(t.Names)), !safe(old(t.Names)[j])) ==> isErr(result, linux.EINVAL) && nocalls()
 
 //@ func (*twalk).handle
-//@   use handlerBase walkRows
+//@   use handlerBase walkRows localLocks
 //@   ensures[C06] @reply-type typeis(result, *rwalk) || typeis(result, *rlerror)
 //@   ensures[C04] @success-binds-unopened-newfid typeis(result, *rwalk) ==> has(cs.fids, old(t.newFID)) && !cs.fids[old(t.newFID)].opened
 //@   at doWalk requires[C03] @forwards arg1 == old(cs.fids[t.fid]) && arg2 == old(t.Names) && !arg3
 
 //@ func (*twalkgetattr).handle
-//@   use handlerBase walkRows
+//@   use handlerBase walkRows localLocks
 //@   ensures[C06] @reply-type typeis(result, *rwalkgetattr) || typeis(result, *rlerror)
 //@   ensures[C04] @success-binds-unopened-newfid typeis(result, *rwalkgetattr) ==> has(cs.fids, old(t.newFID)) && !cs.fids[old(t.newFID)].opened
 //@   at doWalk requires[C03] @forwards arg1 == old(cs.fids[t.fid]) && arg2 == old(t.Names) && arg3
 
 //@ func (*tattach).handle
-//@   use handlerBase
+//@   use handlerBase localLocks
 //@   ensures[C06] @reply-type typeis(result, *rattach) || typeis(result, *rlerror)
 //@   ensures[C04] @auth-fid-einval old(t.Auth.Authenticationfid) != noFID ==> isErr(result, linux.EINVAL) && nocalls() && sameFids(cs)
 //@   ensures[C04,C15] @binds-only-on-success typeis(result, *rlerror) ==> sameFids(cs)
@@ -854,20 +860,20 @@ package p9
 
 // ---- version-3 creation messages: forward with the explicit uid ---------------------
 //@ func (*tucreate).handle
-//@   use handlerBase
+//@   use handlerBase localLocks
 //@   ensures[C06] @reply-type typeis(result, *rucreate) || typeis(result, *rlerror)
 //@   at (*tlcreate).do requires[C03] @forwards-uid arg1 == old(t.UID)
 //@   ensures[C04,C15] @error-leaves-table typeis(result, *rlerror) ==> sameFids(cs)
 //@ func (*tumkdir).handle
-//@   use handlerBase dirOpRows
+//@   use handlerBase dirOpRows localLocks
 //@   ensures[C06] @reply-type typeis(result, *rumkdir) || typeis(result, *rlerror)
 //@   at (*tmkdir).do requires[C03] @forwards-uid arg1 == old(t.UID)
 //@ func (*tusymlink).handle
-//@   use handlerBase dirOpRows
+//@   use handlerBase dirOpRows localLocks
 //@   ensures[C06] @reply-type typeis(result, *rusymlink) || typeis(result, *rlerror)
 //@   at (*tsymlink).do requires[C03] @forwards-uid arg1 == old(t.UID)
 //@ func (*tumknod).handle
-//@   use handlerBase dirOpRows
+//@   use handlerBase dirOpRows localLocks
 //@   ensures[C06] @reply-type typeis(result, *rumknod) || typeis(result, *rlerror)
 //@   at (*tmknod).do requires[C03] @forwards-uid arg1 == old(t.UID)
 
@@ -880,7 +886,7 @@ package p9
 // contract as well as against its own (behavioural subtyping).
 //@ interface handler.handle
 //@   impls
-//@   use handlerBase
+//@   use handlerBase localLocks
 //@   ensures[C06,C15] @replies result != nil
 //@   ensures[C06] @reply-type-matches typeis(result, *rlerror) || replyFor(recv, result)
 //@   maypanic
@@ -889,7 +895,7 @@ package p9
 //@ define replyFor(t message, r message) bool = (typeis(t, *tversion) && typeis(r, *rversion)) || (typeis(t, *tflush) && typeis(r, *rflush)) || (typeis(t, *twalk) && typeis(r, *rwalk)) || (typeis(t, *tclunk) && typeis(r, *rclunk)) || (typeis(t, *tremove) && typeis(r, *rremove)) || (typeis(t, *tattach) && typeis(r, *rattach)) || (typeis(t, *tlopen) && typeis(r, *rlopen)) || (typeis(t, *tlcreate) && typeis(r, *rlcreate)) || (typeis(t, *tsymlink) && typeis(r, *rsymlink)) || (typeis(t, *tlink) && typeis(r, *rlink)) || (typeis(t, *trenameat) && typeis(r, *rrenameat)) || (typeis(t, *tunlinkat) && typeis(r, *runlinkat)) || (typeis(t, *trename) && typeis(r, *rrename)) || (typeis(t, *treadlink) && typeis(r, *rreadlink)) || (typeis(t, *tread) && typeis(r, *rreadServerPayloader)) || (typeis(t, *twrite) && typeis(r, *rwrite)) || (typeis(t, *tmknod) && typeis(r, *rmknod)) || (typeis(t, *tmkdir) && typeis(r, *rmkdir)) || (typeis(t, *tgetattr) && typeis(r, *rgetattr)) || (typeis(t, *tsetattr) && typeis(r, *rsetattr)) || (typeis(t, *txattrwalk) && typeis(r, *rxattrwalk)) || (typeis(t, *txattrcreate) && typeis(r, *rxattrcreate)) || (typeis(t, *treaddir) && typeis(r, *rreaddir)) || (typeis(t, *tfsync) && typeis(r, *rfsync)) || (typeis(t, *tstatfs) && typeis(r, *rstatfs)) || (typeis(t, *tlock) && typeis(r, *rlock)) || (typeis(t, *twalkgetattr) && typeis(r, *rwalkgetattr)) || (typeis(t, *tucreate) && typeis(r, *rucreate)) || (typeis(t, *tumkdir) && typeis(r, *rumkdir)) || (typeis(t, *tusymlink) && typeis(r, *rusymlink)) || (typeis(t, *tumknod) && typeis(r, *rumknod))
 
 //@ func (*connState).handle
-//@   use handlerBase
+//@   use handlerBase localLocks
 //@   ensures[C06,C15] @always-a-reply result != nil
 //@   ensures[C06] @reply-type-matches typeis(result, *rlerror) || replyFor(m, result)
 //@   ensures[C15] @panic-becomes-efault ghost("$didpanic", bool) ==> isErr(result, linux.EFAULT)
@@ -917,16 +923,17 @@ package p9
 // the tag's channel, which is only ever closed (by ClearTag). Waiting for the
 // tag of the request that is doing the waiting can never return.
 //@ func (*connState).WaitTag
-//@   requires[C15,C16] held(cs.tagMu) == 0
+//@   requires[C06,C14,C15,C16] @caller-holds-no-mutex nolocks()
 //@   requires[C14,C06] @never-waits-for-own-tag t != ghost("$curTag", tag)
 //@   modifies $recv
 //@   ensures[C14] @idle-returns-at-once !old(has(cs.tags, t)) ==> ghost("$recv") == old(ghost("$recv"))
 //@   ensures[C14] @active-waits-for-close old(has(cs.tags, t)) ==> ghost("$recv") == old(ghost("$recv")) + 1
 //@   ensures[C15,C16] samelocks()
+//@   blocking[C06,C14,C16]
 //@   nopanic
 
 //@ func (*tflush).handle
-//@   use handlerBase dirOpRows
+//@   use handlerBase dirOpRows localLocks
 //@   ensures[C06] @reply-type typeis(result, *rflush)
 //@   ensures[C14] @rflush-only-after-wait ncalls("(*connState).WaitTag") == 1
 //@   at (*connState).WaitTag requires[C14] @waits-for-the-flushed-tag arg0 == old(t.OldTag)
@@ -999,7 +1006,7 @@ package p9
 //@   use transportFrame
 
 //@ func (*connState).handleRequest
-//@   use handlerBase
+//@   use handlerBase localLocks
 //@   requires[C06] cs.server != nil
 //@   at send requires[C06] @frames-are-contiguous held(cs.sendMu) == -1
 //@   at send requires[C06] @reply-carries-request-tag arg2 == ghost("$ret.tag", tag)
@@ -1049,7 +1056,7 @@ package p9
 //@ declare decimal(n uint32) string
 
 //@ func (*tversion).handle
-//@   use handlerBase dirOpRows
+//@   use handlerBase dirOpRows localLocks
 //@   requires[C12] forall(n, uint32, googleVersion(n) != "9P2000.L" && googleVersion(n) != "9P2000.u" && googleVersion(n) != "9P2000")
 //@   ensures[C12,C06] @always-rversion typeis(result, *rversion)
 //@   ensures[C12] @zero-msize-unknown old(t.MSize) == 0 ==> unbox(result, *rversion).Version == "unknown" && unbox(result, *rversion).MSize == 0 && cs.messageSize == old(cs.messageSize) && cs.version == old(cs.version)
